@@ -91,6 +91,7 @@ WIDE["errors"] = HEAD + '''QWidget {
         QLayout.row: 1; QLayout.column: 2; QLayout.rowSpan: 1; QLayout.alignment: Qt.AlignLeft; QTabWidget.title: "t"; QTabWidget.toolTip: "tt"
         onNope: {} onNope2: {} onLinkActivated: { nope() }
     }
+    QLabel { QTabWidgett.title: "x"; QTabWidgett.icon: "y"; QLayot.row: 1; QLayot.column: 2; QTabWidget.tooltip: "t"; QTabWidget.nope: 1; QFormLayot.x: 1; QGridLayot.y: 2; QLayout.nope: 3 }
     QVBoxLayout { QLabel { QLayout.row: 1; QLayout.column: 2; QLayout.rowSpan: 1; QLayout.columnSpan: 2; text: chk.nope; toolTip: chk.nope2; statusTip: nope3 } }
 }
 '''
@@ -180,9 +181,19 @@ def run(chk):
     tree = tempfile.mkdtemp(prefix="c08-", dir=chk.work)
     cli_docs = {"Const.qml": WIDE["const"], "Dynamic.qml": WIDE["dynamic"], "Warn.qml": WIDE["warnings"], "Warn2.qml": WIDE["warnings"].replace('"x"', '"y"'),
                 "Palette.qml": HEAD + 'QWidget { palette.window: "red"; palette.base: "blue"; palette.text: "green"; palette.disabled { button: "gray" } palette.active { link: "navy" } }\n'}
+    # a project whose two string imports define the same type name: the later import wins, in every process
+    proj = {"Shadow.qml": HEAD + 'import "pa"\nimport "pb"\nQWidget { Fancy { text: "x" } Fancy { } Other { } }\n',
+            "Shadow2.qml": HEAD + 'import "pb"\nimport "pa"\nimport "pc"\nQWidget { Fancy { text: "x" } Other { } Third { } }\n',
+            "pa/Fancy.qml": HEAD + "QLabel { }\n", "pb/Fancy.qml": HEAD + "QPushButton { }\n", "pa/Other.qml": HEAD + "QPushButton { }\n", "pb/Other.qml": HEAD + "QLabel { }\n",
+            "pc/Fancy.qml": HEAD + "QCheckBox { }\n", "pc/Third.qml": HEAD + "QLabel { }\n", "pa/Third.qml": HEAD + "QLineEdit { }\n"}
+    for n, t in proj.items():
+        os.makedirs(os.path.dirname(os.path.join(tree, n)), exist_ok=True)
+        open(os.path.join(tree, n), "w").write(t)
+    cli_docs["Shadow.qml"] = proj["Shadow.qml"]
+    cli_docs["Shadow2.qml"] = proj["Shadow2.qml"]
     for n, t in cli_docs.items():
         open(os.path.join(tree, n), "w").write(t)
-    invocations = [[n] for n in sorted(cli_docs)] * (3 if quick else 12)
+    invocations = [[n] for n in sorted(cli_docs)] * (3 if quick else 12) + [["Shadow.qml"], ["Shadow2.qml"]] * (6 if quick else 30)
     multi = [["Warn.qml", "Const.qml", "Warn2.qml", "Dynamic.qml", "Palette.qml"], ["Palette.qml", "Dynamic.qml", "Warn2.qml", "Const.qml", "Warn.qml"],
              ["Warn2.qml", "Warn.qml", "Palette.qml"], ["Const.qml", "Warn.qml"], ["Warn.qml", "Const.qml"]]
     invocations += multi * (2 if quick else 6)
